@@ -39,6 +39,7 @@ Proof.
   - inversion H; subst. reflexivity.
   - destruct (negb _); [discriminate|].
     destruct (lookup c sizes) as [len|]; [|discriminate].
+    destruct (lookup c ids); [discriminate|].
     destruct (get_id ids c) as [ids1 id].
     destruct (check_chrom len vals); cbn [rbind] in H; try discriminate.
     destruct (process_runs o sizes (Some c) ids1 rest) as [[ids2 outs2]| | |] eqn:Er; cbn [rbind] in H; try discriminate.
